@@ -426,3 +426,5 @@ func genHagrid(repo string) (string, map[string]string, error) {
 	}
 	return out.String(), hashes, nil
 }
+
+func init() { register("Hagrid", genHagrid) }
